@@ -1,6 +1,7 @@
 package main
 
 import (
+	"encoding/json"
 	"flag"
 	"fmt"
 	"os"
@@ -80,6 +81,27 @@ func main() {
 			os.Exit(2)
 		}
 	}
+	var replaySet map[string]bool
+	if *replay != "" {
+		// re-evaluate exactly the obligations named in a violations file, in every configuration
+		var vf struct {
+			Violations []Ob `json:"violations"`
+		}
+		b, err := os.ReadFile(*replay)
+		if err != nil || json.Unmarshal(b, &vf) != nil {
+			fmt.Fprintf(os.Stderr, "cannot read replay file %s\n", *replay)
+			os.Exit(2)
+		}
+		replaySet = map[string]bool{}
+		for _, o := range vf.Violations {
+			replaySet[o.Rule+"/"+o.Construct] = true
+			if o.Config != "" && o.Config != defaultConfig.Name {
+				*tier = "thorough"
+			}
+		}
+		fmt.Printf("replay: %d obligation(s) from %s\n", len(replaySet), *replay)
+	}
+	partialRun = *only != "" || replaySet != nil
 	cfgs := []BuildConfig{defaultConfig}
 	if *tier == "thorough" {
 		cfgs = thoroughConfigs
@@ -98,7 +120,7 @@ func main() {
 		fmt.Printf("loaded %s: %d module packages, %d module functions, %d call-graph nodes (load %.1fs ssa %.1fs vta %.1fs)\n",
 			cfg.Name, len(e.Pkgs), len(e.ModFuncs), len(e.CG.Nodes), e.LoadS, e.SSAS, e.CGS)
 		for _, id := range ids {
-			r := &Report{Prop: id, e: e, cfg: cfg.Name, only: *only}
+			r := &Report{Prop: id, e: e, cfg: cfg.Name, only: *only, onlySet: replaySet}
 			runProperty(registry[id], e, r)
 			r.e = nil
 			reports[id] = append(reports[id], r)
@@ -108,7 +130,6 @@ func main() {
 		e = nil
 		debug.FreeOSMemory()
 	}
-	_ = replay
 	for _, id := range ids {
 		p := registry[id]
 		rs := reports[id]
@@ -121,7 +142,7 @@ func main() {
 			}
 		}
 		var st map[string]interface{}
-		if *tier == "thorough" && !*noself && loadFailed == "" && *only == "" {
+		if *tier == "thorough" && !*noself && loadFailed == "" && !partialRun {
 			var sr *Report
 			st, sr = selfTest(*verif, *repo, p)
 			if sr != nil {
